@@ -225,6 +225,59 @@ theorem range_functions_are_the_code (a b : Ext) (i : Int) :
     R_eq a b = a.eqv b ∧ E_intersection a b = a.inter b :=
   ⟨rfl, rfl, rfl, rfl, rfl, rfl, rfl⟩
 
+/-! ### public wrappers of `const_subarray` (D > 1, D = 1) and the overrides of the mutable class `subarray`
+
+Each forwards to the `_aux_` function tied above (all `const&` / `&` / `&&` overloads translate to the same text, which the
+translator checks).  The call-syntax dispatcher `paren_aux_` is the model's `View.paren`, one argument at a time. -/
+
+theorem wrappers_are_the_code (v : View) (a c : Int) (e : Ext) (args : List Arg) :
+    W_sliced v a c = v.sliced a c ∧ W_taked v a = v.taked a ∧ W_dropped v a = v.dropped a ∧ W_strided v a = v.strided a ∧
+    W_rotated v = v.rotated ∧ W_unrotated v = v.unrotated ∧ W_transposed v = v.transposed ∧ W_reversed v = v.reversed ∧
+    W_partitioned v a = v.partitioned a ∧ W_chunked v a = v.chunked a ∧ W_halved v = v.halved ∧ W_diagonal v = v.diagonal ∧
+    W1_sliced v a c = v.sliced a c ∧ W1_taked v a = v.taked a ∧ W1_dropped v a = v.dropped a ∧ W1_strided v a = v.strided a ∧
+    W1_partitioned v a = v.partitioned a ∧ W1_chunked v a = v.chunked a ∧ W1_halved v = v.halved ∧
+    S_sliced v a c = v.sliced a c ∧ S_range v e = v.range e.first e.last ∧ S_taked v a = v.taked a ∧ S_dropped v a = v.dropped a ∧
+    S_strided v a = v.strided a ∧ S_rotated v = v.rotated ∧ S_unrotated v = v.unrotated ∧ S_transposed v = v.transposed ∧
+    S_reversed v = v.reversed ∧ S_partitioned v a = v.partitioned a ∧ S_chunked v a = v.chunked a ∧ S_diagonal v = v.diagonal ∧
+    S_bracket v a = v.index a := by
+  refine ⟨rfl, rfl, rfl, rfl, rfl, rfl, rfl, rfl, rfl, rfl, rfl, rfl, rfl, rfl, rfl, rfl, rfl, rfl, rfl, rfl, ?_, rfl, rfl, rfl, rfl, rfl, rfl,
+    rfl, rfl, rfl, rfl, rfl⟩
+  simp [S_range, View.range, Ext.size]
+
+theorem S_flatted_tie (b : Int) (d d1 : Dim) (sub : Layout) : S_flatted ⟨b, d :: d1 :: sub⟩ = View.flatted ⟨b, d :: d1 :: sub⟩ := by
+  simp [S_flatted, View.flatted]
+
+/-- the call-syntax dispatcher, overload by overload, is `View.paren` consuming one argument; an `intersecting_range`
+    (`multi::ALL`, `multi::_ < k`, `k <= multi::_`) is first intersected with the leading extension -/
+theorem paren_dispatch_is_the_code (v : View) (i : Int) (r : Ext) (args : List Arg) :
+    W_paren0 v = v.paren [] ∧ S_paren0 v = v.paren [] ∧ W1_paren0 v = v.paren [] ∧
+    S_paren_idx1 v i = v.paren [Arg.idx i] ∧ W1_paren_idx v i = v.paren [Arg.idx i] ∧
+    S_paren_idx v i args = v.paren (Arg.idx i :: args) ∧
+    W_paren_rng v r args = v.paren (Arg.rng r.first r.last :: args) ∧ S_paren_rng v r args = v.paren (Arg.rng r.first r.last :: args) ∧
+    W_paren_clip v r args = v.paren (Arg.rng (v.ext.inter r).first (v.ext.inter r).last :: args) ∧
+    S_paren_clip v r args = v.paren (Arg.rng (v.ext.inter r).first (v.ext.inter r).last :: args) := by
+  have hext : Dim.ext (hd v.lay) = v.ext := by
+    unfold View.ext hd
+    cases v.lay <;> simp [Dim.ext]
+  refine ⟨rfl, rfl, rfl, rfl, rfl, rfl, ?_, ?_, ?_, ?_⟩
+  · simp [W_paren_rng, View.paren]
+  · simp [S_paren_rng, View.paren]
+  · simp [W_paren_clip, hext]
+  · simp [S_paren_clip, hext]
+
+/-- `multi::ALL` is the clip with the whole index range: the model's `Arg.all` case is the code's `intersecting_range` case -/
+theorem paren_all_is_clip (v : View) (args : List Arg) :
+    v.paren (Arg.all :: args) = v.paren (Arg.rng (v.ext.inter ⟨v.ext.first, v.ext.last⟩).first (v.ext.inter ⟨v.ext.first, v.ext.last⟩).last :: args) := by
+  simp [View.paren]
+
+theorem W1_paren_tie (b : Int) (d : Dim) (r : Ext) :
+    W1_paren_rng ⟨b, [d]⟩ r = View.range ⟨b, [d]⟩ r.first r.last ∧
+    W1_paren_clip ⟨b, [d]⟩ r = View.range ⟨b, [d]⟩ (d.ext.inter r).first (d.ext.inter r).last := by
+  have h : ∀ (x : Ext), x.first + (x.last - x.first) = x.last := fun x => by omega
+  constructor
+  · simp [W1_paren_rng, View.range, h]
+  · simp [W1_paren_clip, View.range, View.paren, View.rotated, View.unrotated, View.sliced, Layout.slice, Layout.rotate, Layout.unrotate, h]
+
 /-- the whole tie in one statement (the name the checks audit): every regenerated function agrees with the hand model -/
 theorem layout_functions_are_the_code :
     (∀ e es, L_ctor e (Layout.ofExts es) = Layout.ofExts (e :: es)) ∧
